@@ -64,6 +64,13 @@ def _template_cases():
             p = T.multi_route(do)
             p["nodes"][1]["behav"] = {"seq": [dec]}
             yield ("multi", p, ins, [None, [4, 3, 2, 1, 0]])
+    for d1 in (True, False):
+        for d2 in ("t", "v", None):
+            for o1, o2 in ((True, False), (False, False), (True, True)):
+                p = T.two_gates_shared_target(o1, o2)
+                p["nodes"][1]["behav"] = {"seq": [d1]}
+                p["nodes"][2]["behav"] = {"seq": [d2]}
+                yield ("shared-target", p, ins, [None, [5, 4, 3, 2, 1, 0], [0, 2, 1, 3, 4, 5]])
     for lim in (0, 1, 3):
         for gk in ("route", "ifelse"):
             for ex in (False, True):
@@ -144,8 +151,9 @@ def snapshot_violations(h, prog_specs):
     return out
 
 
-def check_case(acc, family, prog, inputs, order, faults, tier, witness_base):
-    """Sync reference, then all async schedules x concurrency limits."""
+def check_case(acc, family, prog, inputs, order, faults, tier, witness_base, base=None):
+    """Sync reference, then all async schedules x concurrency limits.  ``base`` = (view, calls) of the sync run
+    with the identity node order: non-failing runs must agree with it under every node-list order."""
     eh = "continue" if faults else "raise"
     sp = T.set_async(prog, False)
     ap = T.set_async(prog, True)
@@ -159,6 +167,8 @@ def check_case(acc, family, prog, inputs, order, faults, tier, witness_base):
     acc.traces += 1
     ref = x0.view()
     ref_calls = _calls(h0)
+    if base is not None and not faults and (ref != base[0] or ref_calls != base[1]):
+        acc.violation({"symptom": "node-order-dependence"}, {**witness_base, "runner": "sync", "choices": []}, f"sync outcome with node order {order} differs from the identity order: {jsonable(ref)} vs {jsonable(base[0])}")
     for m in snapshot_violations(h0, None):
         acc.violation({"symptom": "snapshot-isolation", "runner": "sync"}, {**witness_base, "runner": "sync", "choices": []}, m)
     bound = 2 if tier == "quick" else None
@@ -217,6 +227,9 @@ def run_shard(shard):
     for ci, (family, prog, inputs, ords) in enumerate(_cases(tier)):
         if ci % k != s:
             continue
+        hb = H()
+        xb = execute(T.set_async(prog, False), inputs, runner="sync", h=hb, error_handling="raise")
+        base = (xb.view(), _calls(hb))
         for order in ords:
             for faults in _fault_sets(prog, tier, family):
                 case = (family, ci, tuple(order) if order else None, tuple(sorted(faults)))
@@ -224,7 +237,7 @@ def run_shard(shard):
                 wb = {"case": jsonable(case), "program": prog, "inputs": jsonable(inputs), "order": list(order) if order else None, "faults": sorted(list(f) for f in faults)}
                 if len(acc.samples) < 1 and faults:
                     acc.sample(wb)
-                check_case(acc, family, prog, inputs, order, faults, tier, wb)
+                check_case(acc, family, prog, inputs, order, faults, tier, wb, base)
     return acc
 
 
@@ -248,6 +261,11 @@ def replay(rep):
     h0 = H(fault=fset)
     x0 = execute(sp, rep["inputs"], runner="sync", h=h0, error_handling=eh)
     msgs = list(snapshot_violations(h0, None))
+    if not faults:
+        hb = H()
+        xb = execute(T.set_async(prog, False), rep["inputs"], runner="sync", h=hb, error_handling="raise")
+        if (xb.view(), _calls(hb)) != (x0.view(), _calls(h0)):
+            msgs.append("sync outcome depends on the node-list order")
     if rep["runner"] == "async":
         def run(ch):
             h = H(ch, suspend=True, fault=fset)
